@@ -7,13 +7,15 @@ PROP = {
         "tests": [
             {"name": "TestVerifC11ConsumerViews", "quick": 1200, "thorough": 160000, "shards": {"thorough": 16}},
             {"name": "TestVerifC11ConcurrentCallers", "quick": 1500, "thorough": 96000, "shards": {"thorough": 8}, "salt": 3},
+            # thorough only: the colliding-callers unit compiled with the data race detector
+            {"name": "TestVerifC11ConcurrentCallersDetector", "thorough": 6000, "shards": {"thorough": 8}, "salt": 5, "race": True, "env": {"GORACE": "halt_on_error=1"}},
         ],
     }],
 }
 CLAIM = {
     "engine": "mirrorsim",
-    "technique": "stateful property-based testing (rapid op lists incl. consumer schedules, testing/synctest bubbles) with per-consumer history invariants",
-    "text": "Generated message histories with generated reader schedules (stalled, resumed, read n) for the state machine and gossip outputs of one real tmmirror.Mirror; per consumer and round the received versions must strictly increase, proposals and signer sets only grow, received values stay bit-identical after receipt, a drained consumer must hold the mirror's current view, and rounds left by nil commit, full vote or skip must be explained to both consumers. A second unit is dominated by concurrent Handle* callers that collide on one block hash (a light and a heavy caller, so that the heavy update conflicts and is retried). Further clauses: one (height, round, version) names one content in the mirror itself; a vote message for the voting round answered with Accepted stays in the voting view while the node is in that round; with no input pending the outputs become quiescent (a drain that receives 3000 successive views fails).",
+    "technique": "stateful property-based testing (rapid op lists incl. consumer schedules, testing/synctest bubbles) with per-consumer history invariants (thorough: the colliding-callers unit also under the Go race detector)",
+    "text": "Generated message histories with generated reader schedules (stalled, resumed, read n) for the state machine and gossip outputs of one real tmmirror.Mirror; per consumer and round the received versions must strictly increase, proposals and signer sets only grow, received values stay bit-identical after receipt, a drained consumer must hold the mirror's current view, and rounds left by nil commit, full vote or skip must be explained to both consumers. A second unit is dominated by concurrent Handle* callers that collide on one block hash (a light and a heavy caller, so that the heavy update conflicts and is retried). Further clauses: one (height, round, version) names one content in the mirror itself; a vote message for the voting round answered with Accepted stays in the voting view while the node is in that round; with no input pending the outputs become quiescent (a drain that receives 3000 successive views fails). The thorough tier repeats the colliding-callers unit in a -race build: a view, proof or header shared between the kernel and a caller or consumer without a private copy is reported by the detector whether or not the contents differ at an observation point.",
     "design_ref": "DESIGN.md section 4 C11, section 3.1",
     "note": "Exploration only; the relative order of goroutines inside one step is the Go scheduler's; known crash findings (C09-*) are excluded by construction.",
 }
